@@ -128,10 +128,14 @@ def model_line(case, hdr_seen):
     if cfg['tool'] == 'basic':
         return 'basic %s %s %s %s %s %s' % (T(cfg['charset']), codec, T(cfg['realm']), PAIRS(cfg['users']),
                                             OPT(hdr_seen), PAIRS(cl.nfc_table(hdr_seen, PYCODEC[codec])))
-    store = cfg['users'] if cfg['store'] == 'plain' else \
-        [[u, cl.ha1_of(u, cfg['realm'], p)] for u, p in cfg['users']]
+    if cfg['store'] == 'htdigest':
+        store = '_' if not cfg['htlines'] else ','.join('~'.join(T(x) for x in l) for l in cfg['htlines'])
+    elif cfg['store'] == 'plain':
+        store = PAIRS(cfg['users'])
+    else:
+        store = PAIRS([[u, cl.ha1_of(u, cfg['realm'], p)] for u, p in cfg['users']])
     return 'digest %s %s %s %s %s %s %s %d %s' % (
-        T(cfg['charset']), codec, T(cfg['realm']), T(cfg['key']), cfg['store'], PAIRS(store),
+        T(cfg['charset']), codec, T(cfg['realm']), T(cfg['key']), cfg['store'], store,
         T(case['method']), int(case['now']), OPT(hdr_seen))
 
 
@@ -174,6 +178,7 @@ class World:
         auth_digest.time = self.clock
         self.apps = {}
         self.probe = {}
+        self.tmp = None
         probe = self.probe
 
         class Root(object):
@@ -198,6 +203,21 @@ class World:
 
     def close(self):
         self.auth_digest.time = self.saved_time
+        if self.tmp is not None:
+            self.tmp.cleanup()
+            self.tmp = None
+
+    def htdigest_file(self, cfg):
+        import tempfile
+        if self.tmp is None:
+            self.tmp = tempfile.TemporaryDirectory(prefix='c19-')
+        import hashlib
+        name = hashlib.sha1(json.dumps(cfg, sort_keys=True).encode()).hexdigest()[:16]
+        path = os.path.join(self.tmp.name, name + '.htdigest')
+        with open(path, 'w') as f:           # same default encoding get_ha1_file_htdigest reads with
+            for u, r, h in cfg['htlines']:
+                f.write('%s:%s:%s\n' % (u, r, h))
+        return path
 
     def app(self, cfg):
         key = json.dumps(cfg, sort_keys=True)
@@ -216,6 +236,8 @@ class World:
         else:
             if cfg['store'] == 'plain':
                 get_ha1 = self.auth_digest.get_ha1_dict_plain(users)
+            elif cfg['store'] == 'htdigest':
+                get_ha1 = self.auth_digest.get_ha1_file_htdigest(self.htdigest_file(cfg))
             else:
                 get_ha1 = self.auth_digest.get_ha1_dict(
                     {u: cl.ha1_of(u, cfg['realm'], p) for u, p in cfg['users']})
@@ -388,6 +410,7 @@ def check_cases(ctx, world, cases, compare=True):
         ctx.count('kind:%s:%s' % (cfg['tool'], case['kind']))
         ctx.count('status:%s:%d%s' % (cfg['tool'], obs['status'], ':ran' if obs['ran'] else ''))
         ctx.count('charset:' + cfg['charset'])
+        ctx.count('store:' + cfg.get('store', 'checkpassword_dict'))
         if cfg['tool'] == 'digest':
             ctx.count('digest:alg=%s:qop=%s' % (case.get('sent_alg'), case.get('sent_qop')))
             ctx.count('method:' + case['method'])
